@@ -1,7 +1,41 @@
-(* C15 -- placeholder until the session theorems for this property are in place *)
-From SF Require Import Session Session_proofs Session_c07.
-Theorem C15_pre_logon_frame : forall cfg s o s' os,
-    not_logged s -> pools_ok s -> not_app_send o -> step cfg s o = (s', os) ->
-    Forall post_logon_types (wire_types os).
-Proof. exact logon_step_wires. Qed.
-Print Assumptions C15_pre_logon_frame.
+(* C15 -- Logout is acknowledged once; Stop ends on the peer's answer or the deadline. *)
+From SF Require Import Bytes Values Wire Parse Session Session_proofs Session_clean Session_handlers.
+
+(* logged on + the peer's Logout: the request event, one Logout through Session.send, timers
+   stopped, and the session is back to waiting for a Logon (not logged on) *)
+Theorem C15_peer_logout :
+  forall cfg s d lm,
+    parse_as msgtype_Logout tpl_Logout d = Ok lm -> s_state s = SuccessfulLogged ->
+    exists sa oa sb ob,
+      change_state s WaitingLogoutAnswer = (sa, oa) /\
+      session_send cfg sa (mk_msg msgtype_Logout tpl_Logout) = (sb, ob) /\
+      run_in_handler cfg s HLogout d = (upd_state (stop_timers sb) (state_after_logout cfg), oa ++ ob, true).
+Proof. exact peer_logout_when_logged. Qed.
+Print Assumptions C15_peer_logout.
+
+(* after our own Logout, the peer's answer produces no message at all and raises the logout event *)
+Theorem C15_answer_to_own_logout :
+  forall cfg s d lm,
+    parse_as msgtype_Logout tpl_Logout d = Ok lm -> s_state s = WaitingLogoutAnswer ->
+    exists s1 o1,
+      run_ev_handlers (upd_state s ReceivedLogoutAnswer) (ev_get (s_ev s) EvLogout) = (s1, o1) /\
+      run_in_handler cfg s HLogout d =
+        (upd_state (stop_timers (upd_state s1 WaitingLogon)) (state_after_logout cfg), OEvent EvLogout :: o1, true)
+      /\ wires (OEvent EvLogout :: o1) = [].
+Proof. exact peer_logout_answer. Qed.
+Print Assumptions C15_answer_to_own_logout.
+
+(* Stop registered its handler for that event: running the event cancels the session context
+   (unless an application handler registered earlier for it stops the chain) *)
+Theorem C15_stop_cancels_on_answer :
+  forall hs s s' o,
+    In EStopLogout hs -> Forall (fun h => match h with EApp _ c => c = true | _ => True end) hs ->
+    run_ev_handlers s hs = (s', o) -> s_cancelled s' = true.
+Proof. exact stop_handler_cancels. Qed.
+Print Assumptions C15_stop_cancels_on_answer.
+
+(* and the close deadline cancels it unconditionally, whatever the close timeout *)
+Theorem C15_deadline_cancels :
+  forall cfg s, s_cancelled (fst (step cfg s CloseDeadline)) = true.
+Proof. exact close_deadline_cancels. Qed.
+Print Assumptions C15_deadline_cancels.
